@@ -31,12 +31,13 @@ type HarnessCfg struct {
 	CrashIsViolation bool
 	Solver        SolverKind
 	Seed          int64
+	SampleMaxLen  uint64 // longest input string materialised for cross-check samples
 }
 
 func defaultCfg(name string) *HarnessCfg {
 	return &HarnessCfg{Name: name, Pkg: "gldap", MaxSteps: 3000000, ConcretizeMax: 8, DecodeDepth: 3,
 		DecodeWidths: "def=3", ExtraPkgs: map[string]bool{}, MaxPaths: 200000, SolverTimeout: 20000,
-		Workers: 14, PanicIsViolation: true, CrashIsViolation: true}
+		Workers: 14, PanicIsViolation: true, CrashIsViolation: true, SampleMaxLen: 300}
 }
 
 type PathResult struct {
@@ -71,6 +72,7 @@ type Explorer struct {
 	results []*PathResult
 	cond    *sync.Cond
 	stopped bool
+	modelled int
 }
 
 type ExploreResult struct {
@@ -213,9 +215,9 @@ func (ex *Explorer) runPath(sol *Solver, prefix []int) (res *PathResult) {
 				in.violateWithModel("crash:"+panicKey(c), "no-goroutine-crash", "unrecovered panic on a spawned goroutine: "+c.kind+" at "+c.site+": "+in.panicMessage(c))
 			}
 		}
-		if ex.cfg.WantModels && (ps.outcome == "return" || ps.outcome == "panic" || ps.outcome == "done") && !res.HasModel {
+		if ex.cfg.WantModels && (ps.outcome == "return" || ps.outcome == "panic" || ps.outcome == "done") && !res.HasModel && ex.sampleModel(ps.taken) {
 			if sol.CheckSat() == Sat {
-				res.Model, res.HasModel = in.confirmModel()
+				res.Model, res.HasModel = in.confirmModel(ex.cfg.SampleMaxLen)
 			}
 		}
 		sol.Send("(pop)")
@@ -241,6 +243,25 @@ func (ex *Explorer) runPath(sol *Solver, prefix []int) (res *PathResult) {
 	// late schedule: remaining goroutines run after the harness body
 	in.runPending(nil)
 	return res
+}
+
+// sampleModel decides (deterministically in seed and path) whether a model is
+// computed for a completed path: the first few paths always, then ~4%.
+func (ex *Explorer) sampleModel(dec []int) bool {
+	ex.mu.Lock()
+	n := ex.modelled
+	ex.mu.Unlock()
+	h := uint64(1469598103934665603) ^ uint64(ex.cfg.Seed)*1099511628211
+	for _, d := range dec {
+		h = (h ^ uint64(d+1)) * 1099511628211
+	}
+	take := n < 12 || h%25 == 0
+	if take {
+		ex.mu.Lock()
+		ex.modelled++
+		ex.mu.Unlock()
+	}
+	return take
 }
 
 func panicKey(tp *targetPanic) string {
@@ -288,7 +309,7 @@ func (in *Interp) runInits() {
 // string's sequence length equals its BV length variable.  The tie is imposed
 // here (after fixing the lengths to the values of a first model) instead of
 // during exploration, where bv2nat makes all three solvers time out.
-func (in *Interp) confirmModel() (map[string]interface{}, bool) {
+func (in *Interp) confirmModel(maxLen uint64) (map[string]interface{}, bool) {
 	var lens []InputVar
 	for _, iv := range in.path.inputs {
 		if iv.Kind == "str" {
@@ -301,6 +322,9 @@ func (in *Interp) confirmModel() (map[string]interface{}, bool) {
 	in.flush()
 	// prefer short strings: huge lengths make the solver materialise huge sequences
 	for _, bound := range []uint64{8, 300, 70000} {
+		if bound > maxLen {
+			break
+		}
 		in.sol.Send("(push)")
 		for _, iv := range lens {
 			in.sol.Send(fmt.Sprintf("(assert (bvule %s %s))", in.tt.Ref(iv.L), in.tt.BVConst(bound, 64).lit()))
